@@ -263,9 +263,11 @@ type outcome struct {
 	// attempted effects in faulted / rolled back parts
 	TransientWrites int
 	TransientNotifs int
-	Instrs          int
-	Stack           []stackitem.Item
-	SeenFlags       map[util.Uint160][]callflag.CallFlag
+	// discarded effects whose author lacked the flag (never persisted; counted)
+	TransientFlagless int
+	Instrs            int
+	Stack             []stackitem.Item
+	SeenFlags         map[util.Uint160][]callflag.CallFlag
 }
 
 func (m *monitor) outcome() *outcome {
@@ -274,6 +276,16 @@ func (m *monitor) outcome() *outcome {
 	if !o.Halted {
 		o.TransientWrites = len(m.writes)
 		o.TransientNotifs = len(m.notifs)
+		for _, w := range m.writes {
+			if w.By.Flags&callflag.WriteStates == 0 {
+				o.TransientFlagless++
+			}
+		}
+		for _, n := range m.notifs {
+			if n.By.Flags&callflag.AllowNotify == 0 {
+				o.TransientFlagless++
+			}
+		}
 		return o
 	}
 	final := ic.DAO.Store.GetStorageChanges()
@@ -283,6 +295,9 @@ func (m *monitor) outcome() *outcome {
 			o.FinalWrites = append(o.FinalWrites, w)
 		} else {
 			o.TransientWrites++
+			if w.By.Flags&callflag.WriteStates == 0 {
+				o.TransientFlagless++
+			}
 		}
 	}
 	for _, n := range m.notifs {
@@ -290,6 +305,9 @@ func (m *monitor) outcome() *outcome {
 			o.FinalNotifs = append(o.FinalNotifs, n)
 		} else {
 			o.TransientNotifs++
+			if n.By.Flags&callflag.AllowNotify == 0 {
+				o.TransientFlagless++
+			}
 		}
 	}
 	return o
